@@ -58,7 +58,7 @@ def ref_ppt_primal(V, inst):
     vs, ps, dims, S = inst
     n = len(vs)
     d = int(np.prod(dims))
-    Ms = [np.asarray(V[f"M[{i}]"]) for i in range(n)]
+    Ms = [V.herm(f"M[{i}]") for i in range(n)]
     cons = [("psd", M) for M in Ms]
     tot = Ms[0]
     for M in Ms[1:]:
@@ -74,8 +74,8 @@ def ref_ppt_primal(V, inst):
 def ref_ppt_dual(V, inst):
     vs, ps, dims, S = inst
     n = len(vs)
-    Y = np.asarray(V["Y"])
-    Qs = [np.asarray(V[f"Q[{i}]"]) for i in range(n)]
+    Y = V.herm("Y")
+    Qs = [V.herm(f"Q[{i}]") for i in range(n)]
     cons = [("psd", Y - pfrac(ps[i]) * rho_exact(vs[i]) - oracle_pt(Qs[i], dims, dims, S)) for i in range(n)]
     cons += [("psd", Q) for Q in Qs]
     return SymProgram("min", np.array([[tr(Y)]], dtype=object), cons)
@@ -103,8 +103,8 @@ def ref_hierarchy(V, inst):
     dx, dy = dims
     dxy = dx * dy
     dl = [dx] + [dy] * level
-    Ms = [np.asarray(V[2 * k]) for k in range(n)]
-    Xs = [np.asarray(V[2 * k + 1]) for k in range(n)]
+    Ms = [V.herm(2 * k) for k in range(n)]
+    Xs = [V.herm(2 * k + 1) for k in range(n)]
     symP = np.kron(np.identity(dx, dtype=object), sym_projector(dy, level)) if level > 1 else np.identity(dxy, dtype=object)
     cons = []
     obj = 0
